@@ -111,7 +111,7 @@ def run(chk):
         extra.append(rnd(rng.randint(3, 5)))
     allprims = [{"k": "prim", "n": n} for n in prims]
     cases = [(t, None, False) for t in allprims + trees + extra]
-    configs = ("base", "mapped", "prefixed")
+    configs = tuple(sorted(set(c for r in res.replays for c in r.get("configs", []))) or ["base", "mapped", "prefixed"])      # MC_C05!Configs
     events, meta = typecases.run_trees(chk, cases, configs=configs)
     idx, rejected = validate(chk, events, meta, "Trace_C05", "types")
     good_pairs = set()
